@@ -90,6 +90,17 @@ func (w *c14world) next(m *c14mach) (val string, stop bool) {
 			return c14F(l.F, m.a), false
 		}
 		return "", true
+	case "nilyield":
+		// every second step yields nil first: a yielded nil is the step's value like any other
+		if m.a < l.N {
+			v := "nil"
+			if m.a%2 == 0 {
+				v = c14F(l.F, m.a)
+			}
+			m.a++
+			return v, false
+		}
+		return "", true
 	case "outer":
 		in := w.machs[l.inner]
 		iv, st := w.next(in)
@@ -107,7 +118,7 @@ func (w *c14world) next(m *c14mach) (val string, stop bool) {
 
 func (l *c14lit) finite() bool {
 	switch l.kind {
-	case "counter", "recurfirst", "fib", "kwstep", "captured", "factory":
+	case "counter", "recurfirst", "fib", "kwstep", "captured", "factory", "nilyield":
 		return true
 	}
 	return false
@@ -115,7 +126,7 @@ func (l *c14lit) finite() bool {
 
 func c14genLit(rng *rand.Rand, idx int, allowCaptured bool) *c14lit {
 	l := &c14lit{name: fmt.Sprintf("g%d", idx), N: rng.Intn(7), S: 1 + rng.Intn(3), F: []string{"i", "i*2", "[i, i]"}[rng.Intn(3)]}
-	kinds := []string{"counter", "counter", "fib", "kwstep", "infinite", "twoyields", "recurfirst", "const", "factory", "factory"}
+	kinds := []string{"counter", "counter", "fib", "kwstep", "infinite", "twoyields", "recurfirst", "const", "factory", "factory", "nilyield"}
 	if allowCaptured {
 		kinds = append(kinds, "captured")
 	}
@@ -154,6 +165,13 @@ func c14genLit(rng *rand.Rand, idx int, allowCaptured bool) *c14lit {
 		l.src = fmt.Sprintf("<{|i| recur(i + %d); yield %s if i < %d}>", l.S, fe, l.N)
 	case "const":
 		l.src = fmt.Sprintf("<{|i| yield %s if i < %d}>", fe, l.N)
+	case "nilyield":
+		l.N = 2 + rng.Intn(6)
+		if rng.Intn(2) == 0 {
+			l.src = fmt.Sprintf("<{|i| yield (%s if i %% 2 == 0) if i < %d; yield 999; recur(i + 1)}>", fe, l.N)
+		} else {
+			l.src = fmt.Sprintf("<{|i| yield (%s if i %% 2 == 0) if i < %d; recur(i + 1); i * 100}>", fe, l.N)
+		}
 	}
 	return l
 }
@@ -298,6 +316,15 @@ func runC14(w *fw.W) {
 					}
 				}
 			}
+			dropNil := func(vals []string) []string {
+				var out []string
+				for _, v := range vals {
+					if v != "nil" {
+						out = append(out, v)
+					}
+				}
+				return out
+			}
 			enumerate := func(cp c14mach) []string {
 				var vals []string
 				for i := 0; i < 200; i++ {
@@ -326,12 +353,16 @@ func runC14(w *fw.W) {
 				if advanced[m] {
 					chainAdv++
 				}
-				expectVal("A", name+".A", "["+strings.Join(enumerate(*m), ", ")+"]", false)
+				expectVal("A", name+".A", "["+strings.Join(dropNil(enumerate(*m)), ", ")+"]", false)
 			case op == 6 && l.finite():
 				if advanced[m] {
 					chainAdv++
 				}
-				expectVal("list-chain", name+"@{|x| x}", "["+strings.Join(enumerate(*m), ", ")+"]", false)
+				if rng.Intn(2) == 0 {
+					expectVal("strict-list-chain", name+"=@{|x| x}", "["+strings.Join(enumerate(*m), ", ")+"]", false)
+				} else {
+					expectVal("list-chain", name+"@{|x| x}", "["+strings.Join(dropNil(enumerate(*m)), ", ")+"]", false)
+				}
 			case op == 7 && l.finite():
 				if advanced[m] {
 					chainAdv++
